@@ -39,9 +39,13 @@ fn method_guard(m: &str) -> Option<std::rc::Rc<dyn guard::Guard>> {
 }
 
 fn build_resource(n: &Value) -> Resource {
-    let mut r = web::resource(pat_string(&n["pat"]));
+    let pats: Vec<String> = n["pats"].as_array().unwrap().iter().map(pat_string).collect();
+    let mut r = if pats.len() == 1 { web::resource(pats[0].clone()) } else { web::resource(pats) };
     if let Some(g) = method_guard(n["guard"].as_str().unwrap()) {
         r = r.guard(g);
+    }
+    if n["hg"].as_bool().unwrap_or(false) {
+        r = r.guard(guard::Header("x-g", "1"));
     }
     if n["data"].as_u64().unwrap() != 0 {
         r = r.app_data(Tag(n["data"].as_u64().unwrap()));
@@ -65,6 +69,9 @@ fn build_scope(n: &Value) -> Scope {
     let mut s = web::scope(&pat_string(&n["prefix"]));
     if let Some(g) = method_guard(n["guard"].as_str().unwrap()) {
         s = s.guard(g);
+    }
+    if n["hg"].as_bool().unwrap_or(false) {
+        s = s.guard(guard::Header("x-g", "1"));
     }
     if n["data"].as_u64().unwrap() != 0 {
         s = s.app_data(Tag(n["data"].as_u64().unwrap()));
@@ -98,12 +105,17 @@ pub fn replay(cases: &[Value], out: &mut TraceOut) {
                 let path = chars(&p["path"]);
                 let raw = if p["enc"].as_bool().unwrap_or(false) { path.replace('a', "%61") } else { path.clone() };
                 let method = p["method"].as_str().unwrap();
-                let req = test::TestRequest::with_uri(&raw).method(Method::from_bytes(method.as_bytes()).unwrap()).to_request();
+                let hx = p["hx"].as_bool().unwrap_or(false);
+                let mut tr = test::TestRequest::with_uri(&raw).method(Method::from_bytes(method.as_bytes()).unwrap());
+                if hx {
+                    tr = tr.insert_header(("x-g", "1"));
+                }
+                let req = tr.to_request();
                 let res = test::call_service(&svc, req).await;
                 let status = res.status().as_u16();
                 let body = test::read_body(res).await;
                 let v: Value = serde_json::from_slice(&body).unwrap_or(json!({"id":0,"caps":[],"data":0}));
-                out.emit(json!({"ev":"route","method":method,"path":p["path"],"enc":p["enc"],"status":status,"id":v["id"],"caps":v["caps"],"data":v["data"]}));
+                out.emit(json!({"ev":"route","method":method,"path":p["path"],"enc":p["enc"],"hx":hx,"status":status,"id":v["id"],"caps":v["caps"],"data":v["data"]}));
             }
         }
     });
